@@ -34,6 +34,7 @@ fn gen(rng: &mut Rng, _idx: u64, _tier: Tier) -> Case {
     if rng.chance(0.3) { args.push("--update=-1".into()); args.push("--count-df".into()); }
     if rng.chance(0.15) { args.push("--downlink-log=/dev/null".into()); }
     if rng.chance(0.1) { args.push(format!("--log-messages={}", rng.pick(&[17u32, 11, 20]))); }
+    gen::add_neutral_options(rng, &mut args, true, true);
     let kinds = gen::COMMON_KINDS;
     let mut conns: Vec<Conn> = vec![];
     let chunk = |rng: &mut Rng| *rng.pick(&[Chunking::Line, Chunking::Line, Chunking::Pieces, Chunking::Multi]);
